@@ -46,6 +46,21 @@ Theorem deliver_to_no_other : ∀ bad recips n m o, o ∈ (send bad n recips m).
 Proof. exact send_only_recipients. Qed.
 Print Assumptions deliver_to_no_other.
 
+From Wasp Require Import Proofs.DStateFacts Proofs.RouteFacts.
+(** The replicated subscription store (what Distribute and the writer consult): ByPattern(topic)
+    returns exactly the entries that are stored, currently added, and whose OWN filter matches the
+    topic under MQTT rules — membership of an entry depends on that entry and the topic and on
+    nothing else in the store — and returns none of them twice.  [subs_ok] is the store's
+    invariant (kept by every operation and merge: C09's [dok]). *)
+Theorem by_pattern_exact : ∀ d topic u, subs_ok (d_subs d) →
+  (u ∈ sub_by_pattern d topic ↔
+   abs_subs (d_subs d) (sub_key u) = Some u ∧ sub_added u = true ∧ mmatch (levels (s_pattern u)) (levels topic) = true).
+Proof. exact by_pattern_spec. Qed.
+Print Assumptions by_pattern_exact.
+Theorem by_pattern_once : ∀ d topic, subs_ok (d_subs d) → base.NoDup (map sub_key (sub_by_pattern d topic)).
+Proof. exact by_pattern_nodup. Qed.
+Print Assumptions by_pattern_once.
+
 (** non-vacuity and the MQTT 3.1.1 examples (section 4.7.1.2 / 4.7.1.3) *)
 Example mmatch_examples :
   map (λ ft, mmatch (levels ft.1) (levels ft.2))
